@@ -561,9 +561,14 @@ Definition real_map (l : loc) (vals : kv) (key : bytes) (params : list bytes) : 
 Definition invalid_url : bytes :=
   [47;116;104;105;115;95;105;115;95;97;110;95;105;110;118;97;108;105;100;95;117;114;108;95;103;101;110;101;
    114;97;116;101;100;95;98;121;95;117;114;108;95;109;97;112;112;101;114].
-(* what ends up in the output stream: None = exception propagated, stream untouched *)
+(* what ends up in the output stream: None = exception propagated, stream untouched.  Without
+   invalid_url_throws the url is first written to a stolen buffer and then copied to the stream with
+   operator<<(char const * ), which stops at the first NUL byte (src/url_mapper.cpp, real_map). *)
 Definition map_output (throws : bool) (r : res bytes) : option bytes :=
-  match r with Ok u => Some u | Err _ => if throws then None else Some invalid_url end.
+  match r with
+  | Ok u => Some (if throws then u else cstr u)
+  | Err _ => if throws then None else Some invalid_url
+  end.
 
 (* start location for the mapper of the application at tree position pos (kid indices from the root);
    the flag tells whether the chain of mapper mounts reaches the root *)
@@ -585,11 +590,12 @@ Fixpoint loc_of (l : loc) (full : bool) (pos : list nat) : option (loc * bool) :
           end
       end
   end.
+(* the std::string overloads of url_mapper::map pass key.c_str(): the key ends at the first NUL *)
 Definition map_at (root : app) (vals : kv) (pos : list nat) (key : bytes) (params : list bytes) : res bytes :=
   if negb (build_ok root) then Err EBuild else
   match loc_of (root, []) true pos with
   | None => Err EBuild
-  | Some (l, full) => real_map l (if full then vals else []) key params
+  | Some (l, full) => real_map l (if full then vals else []) (cstr key) params
   end.
 
 (* each kid is mounted at most once in its parent mapper (otherwise parent/this_name of the child
